@@ -462,4 +462,20 @@ func TestVerifLangHang(t *testing.T) {
 		enc.Encode(rec)
 		hs.Close()
 	}
+	// memory probe: a route that doubles a 16-byte string 21 times. An engine that bounds the memory of an evaluation
+	// refuses; one that does not answers with the 32 MiB length - and would go on to exhaust the machine at 40 doublings.
+	grow := "@ GET /grow {\n  $ s = \"xxxxxxxxxxxxxxxx\"\n  $ i = 0\n  while i < 21 {\n    s = s + s\n    i = i + 1\n  }\n  > length(s)\n}\n"
+	for mode := 0; mode < 2; mode++ {
+		srv, err := vServe(grow, mode == 1)
+		if err != nil {
+			t.Fatal(err)
+		}
+		var m0, m1 runtime.MemStats
+		runtime.ReadMemStats(&m0)
+		r := srv.do("GET", "/grow", nil, nil, "")
+		runtime.ReadMemStats(&m1)
+		enc.Encode(map[string]interface{}{"probe": "grow", "mode": []string{"compiled", "interpreted"}[mode], "status": r.Status,
+			"body": strings.TrimSpace(r.Body), "alloc": m1.TotalAlloc - m0.TotalAlloc})
+		srv.close()
+	}
 }
